@@ -362,7 +362,19 @@ func c15Eval(c core.Case) (res core.Result) {
 	}
 	ops, nodes := exprOps(e)
 	if cfg == "readme" {
-		fns := map[expr.Operator]driver.RenderFN{expr.Equals: func(l, r string) (string, error) { return l + " == " + r, nil }}
+		// the README construction: a custom function for one operator laid over driver.Shared. The
+		// custom equals counts its calls and delegates to the stock function, so the expected output
+		// is simply the stock driver's output (no assumption about how the SQL is formatted), and the
+		// number of calls must be the number of EQUALS nodes.
+		calls := 0
+		stock := driver.Shared[expr.Equals]
+		fns := map[expr.Operator]driver.RenderFN{expr.Equals: func(l, r string) (string, error) {
+			calls++
+			if stock == nil {
+				return l + " = " + r, nil
+			}
+			return stock(l, r)
+		}}
 		for op, f := range driver.Shared {
 			if _, found := fns[op]; !found {
 				fns[op] = f
@@ -386,8 +398,11 @@ func c15Eval(c core.Case) (res core.Result) {
 		}
 		res.Nontrivial = true
 		res.Hash = core.Hash64(s2)
-		if want := strings.ReplaceAll(s1, " = ", " == "); s2 != want {
-			add("readme", "output-differs", s2, want)
+		if s2 != s1 {
+			add("readme", "output-differs", s2, s1)
+		}
+		if calls != ops[expr.Equals] {
+			add("readme", "override-call-count", fmt.Sprintf("%d calls of the custom EQUALS function for %d EQUALS nodes", calls, ops[expr.Equals]), "one call per EQUALS node")
 		}
 		return
 	}
